@@ -110,10 +110,61 @@ Section Facts.
   Qed.
 
   (* ---------------- Fortran's reading of a leading minus ---------------- *)
+  (* the sign symmetry of * and / AT THE VALUES THE EXPRESSION MEETS: wherever Fortran reads (-x) * y as -(x * y), the two
+     products are the same number (for binary64 this is a closed computation on the data of a run — no fact about the
+     arithmetic as a whole is assumed) *)
+  Fixpoint neg_sym (rd : nat -> Z -> num) (e : expr) : Prop :=
+    match e with
+    | EVar _ _ | EInt _ | EDec _ _ => True
+    | ENeg a | EPar a | EAbs a | EExp a | ELog a => neg_sym rd a
+    | EBin o a b =>
+        neg_sym rd a /\ neg_sym rd b /\
+        match o with
+        | OMul => match f_regroup a with
+                  | ENeg x => mul (neg (lf_sem rd x)) (lf_sem rd b) = neg (mul (lf_sem rd x) (lf_sem rd b))
+                  | _ => True
+                  end
+        | ODiv => match f_regroup a with
+                  | ENeg x => div (neg (lf_sem rd x)) (lf_sem rd b) = neg (div (lf_sem rd x) (lf_sem rd b))
+                  | _ => True
+                  end
+        | _ => True
+        end
+    | EMM _ a b => neg_sym rd a /\ neg_sym rd b
+    end.
+
+  Lemma regroup_sem_local rd (e : expr) : neg_sym rd e -> lf_sem rd (f_regroup e) = lf_sem rd e.
+  Proof.
+    induction e as [i k|z|d8 d4|a IHa|a IHa|o a IHa b IHb|a IHa|a IHa|a IHa|m a IHa b IHb];
+      cbn [FSem.f_regroup FSem.lf_sem neg_sym]; intros H; try (rewrite IHa by exact H; reflexivity); try reflexivity.
+    - destruct H as (Ha & Hb & Hs). specialize (IHa Ha). specialize (IHb Hb).
+      destruct (is_mul o) eqn:Eo.
+      + destruct (f_regroup a) eqn:Ea; cbn [FSem.lf_sem] in *; try (rewrite IHa, IHb; reflexivity).
+        rewrite IHb, <- IHa. destruct o; cbn [is_mul] in Eo; try discriminate; cbn [FSem.fop]; symmetry; exact Hs.
+      + cbn [FSem.lf_sem]. rewrite IHa, IHb. reflexivity.
+    - destruct H as [Ha Hb]. destruct m; rewrite IHa, IHb by assumption; reflexivity.
+  Qed.
+
+  Lemma regroup_mm_det_local rd (e : expr) : neg_sym rd e -> mm_det rd e -> mm_det rd (f_regroup e).
+  Proof.
+    induction e as [i k|z|d8 d4|a IHa|a IHa|o a IHa b IHb|a IHa|a IHa|a IHa|m a IHa b IHb];
+      cbn [FSem.f_regroup mm_det neg_sym]; auto.
+    - intros (Na & Nb & _) [Ma Mb]. specialize (IHa Na Ma). specialize (IHb Nb Mb). destruct (is_mul o).
+      + destruct (f_regroup a) eqn:Ea; cbn [mm_det] in *; auto.
+      + cbn [mm_det]. auto.
+    - intros [Na Nb] (Ma & Mb & Ho). rewrite !regroup_sem_local by assumption. auto.
+  Qed.
+
   Section Regroup.
     (* sign symmetry of IEEE multiplication and division *)
     Hypothesis neg_mul : forall x y, mul (neg x) y = neg (mul x y).
     Hypothesis neg_div : forall x y, div (neg x) y = neg (div x y).
+
+    Lemma neg_sym_global rd (e : expr) : neg_sym rd e.
+    Proof.
+      induction e as [i k|z|d8 d4|a IHa|a IHa|o a IHa b IHb|a IHa|a IHa|a IHa|m a IHa b IHb]; cbn [neg_sym]; auto.
+      split; [exact IHa|]. split; [exact IHb|]. destruct o; auto; destruct (f_regroup a); auto.
+    Qed.
 
     Lemma regroup_sem rd (e : expr) : lf_sem rd (f_regroup e) = lf_sem rd e.
     Proof.
